@@ -29,7 +29,24 @@ type IcSpec struct {
 	PanicOn   []int64 `json:"panicon,omitempty"`   // panics (before mutating) for these message ids
 	// Nil: the chain holds a nil entry at this position: calling it panics inside safelyApplyInterceptor (contained)
 	Nil bool `json:"nil,omitempty"`
+	// Shape: dynamic type of the configured value: "" = pointer to struct; "func" = a func-typed adapter implementing the
+	// interface; "struct" = a struct held BY VALUE with a slice field.  The last two are unhashable: code that uses the
+	// interceptor value as a map key panics with "hash of unhashable type".
+	Shape string `json:"shape,omitempty"`
 }
+
+// funcInterceptor adapts a function to sarama.ProducerInterceptor (unhashable dynamic type).
+type funcInterceptor func(*sarama.ProducerMessage)
+
+func (f funcInterceptor) OnSend(m *sarama.ProducerMessage) { f(m) }
+
+// valueInterceptor is used by value and holds a slice (unhashable dynamic type).
+type valueInterceptor struct {
+	inner *interceptor
+	tags  []string
+}
+
+func (v valueInterceptor) OnSend(m *sarama.ProducerMessage) { v.inner.OnSend(m) }
 
 // HoldSpec steers the schedule: hold the Nth occurrence of hook Kind until the next wave was submitted.
 type HoldSpec struct {
@@ -245,7 +262,15 @@ func Run(sc *Scenario) *Result {
 			cfg.Producer.Interceptors = append(cfg.Producer.Interceptors, nil)
 			continue
 		}
-		cfg.Producer.Interceptors = append(cfg.Producer.Interceptors, &interceptor{idx: i, spec: s, run: rs})
+		base := &interceptor{idx: i, spec: s, run: rs}
+		switch s.Shape {
+		case "func":
+			cfg.Producer.Interceptors = append(cfg.Producer.Interceptors, funcInterceptor(base.OnSend))
+		case "struct":
+			cfg.Producer.Interceptors = append(cfg.Producer.Interceptors, valueInterceptor{inner: base, tags: []string{"by-value"}})
+		default:
+			cfg.Producer.Interceptors = append(cfg.Producer.Interceptors, base)
+		}
 	}
 	var gates []*Gate
 	for _, h := range sc.Holds {
